@@ -393,3 +393,92 @@ def rule_iter_lazy(cx, tier):
                           fn.file, fn.line, [cx.F.fns[x].qual for x in (p or [])]))
         r.sample({"ctor": fn.qual, "reaches_next": fn.name in reach_pull}, limit=10)
     return r
+
+
+# ---------------------------------------------------------------------------------------------
+# R-PULL-ONE
+
+def _taint_from(fn, start):
+    """locals that (flow-insensitively) derive from `start` through assignments and call arguments"""
+    from ..mir import rv_places
+    t = {start}
+    changed = True
+    calls = fn.calls()
+    while changed:
+        changed = False
+        for b in fn.blocks:
+            if b.cleanup:
+                continue
+            for st in b.stmts:
+                if st[0] != "a" or st[1][0] in t:
+                    continue
+                if any(p[0] in t for p in rv_places(st[2])):
+                    t.add(st[1][0])
+                    changed = True
+        for c in calls:
+            if c.dest[0] in t:
+                continue
+            if any(op_place(a) is not None and op_place(a)[0] in t for a in c.args):
+                t.add(c.dest[0])
+                changed = True
+    return t
+
+
+def rule_pull_one(cx, tier):
+    """R-PULL-ONE: an adaptor with two sources decides on the first source's output before it pulls from the second."""
+    from .narrow import Sym
+    r = RuleResult("R-PULL-ONE",
+                   "in `next` / `next_back` of an iterator adaptor that pulls from two different inner iterators (zip, chain, "
+                   "flatten, ...), every path from a pull of one source to a pull of the other passes a test of what the "
+                   "first pull produced: no element is taken from a source whose partner has already ended")
+    subjects = 0
+    pairs = 0
+    for fn in cx.F.crate_fns("koto_runtime"):
+        if fn.kind == "Closure" or fn.method not in ("next", "next_back"):
+            continue
+        if "core_lib::iterator" not in fn.name and "core_lib::string::iterators" not in fn.name:
+            continue
+        sym = Sym(cx, fn)
+        pulls = []
+        for c in fn.calls():
+            last = (c.short or "").rsplit("::", 1)[-1]
+            if last not in ("next", "next_back") or not c.args:
+                continue
+            if not _is_kiter_recv(fn.crate, c.arg_ty(0)):
+                continue
+            p = op_place(c.args[0])
+            if p is None:
+                continue
+            name = sym.canon(p[0], [])
+            if not name.startswith("self.") and not name.startswith("arg1."):
+                continue
+            pulls.append((name.split(".", 1)[1].split(".")[0], c))
+        fields = {f for f, _ in pulls}
+        if len(fields) < 2:
+            continue
+        subjects += 1
+        cfg = cx.cfg(fn)
+        for (f1, c1) in pulls:
+            taint = _taint_from(fn, c1.dest[0])
+            tests = {b.idx for b in fn.blocks if not b.cleanup and b.term[0] == "switch" and
+                     op_base(b.term[1]) in taint}
+            after = cfg.reachable_after(c1.bb, avoid=tests)
+            for (f2, c2) in pulls:
+                if f2 == f1:
+                    continue
+                if c2.bb not in cfg.reachable_after(c1.bb):
+                    continue
+                pairs += 1
+                r.instances += 1
+                r.nontrivial += 1
+                ok = c2.bb not in after
+                r.sample({"fn": fn.qual, "first": f1, "then": f2, "tested_between": ok})
+                if not ok:
+                    r.add(Finding("R-PULL-ONE", fn.qual, f"{f1}-then-{f2}:untested",
+                                  f"`self.{f2}` is pulled after `self.{f1}` on a path that never looks at what `self.{f1}` "
+                                  f"produced: when `{f1}` has ended, an element of `{f2}` is consumed and lost",
+                                  fn.file, c2.line))
+    r.floor("two-source adaptor methods", subjects, 2)
+    r.floor("ordered pull pairs", pairs, 2)
+    r.analysed = {"two_source_methods": subjects, "pull_pairs": pairs}
+    return r
